@@ -18,8 +18,9 @@ ITEMS = {
     'C': '<xsl:comment>c m</xsl:comment>',
     'P': '<xsl:processing-instruction name="pi">d d</xsl:processing-instruction>',
     'U': '<xsl:text>é€</xsl:text>',
+    'B': '<xsl:text>q]]&gt;</xsl:text>',          # text that ENDS in the CDATA terminator (split needed at the very end of a section)
 }
-INNER = ['', 'T', 'W', 'eTC', 'X', 'Ue']
+INNER = ['', 'T', 'W', 'eTC', 'X', 'Ue', 'B', 'TB', 'Be', 'BT', 'BB']
 
 
 def tree_xsl(seq, inner):
